@@ -214,7 +214,15 @@ pub fn reply_case_strategy_rows(p: &Program, well: u32, unknown_w: u32, garbage_
             (
                 payload_args_strategy(&pm),
                 data_strategy(mode, &ty, well),
-                proptest::collection::vec(("[a-z][a-z_]{1,7}", proptest::collection::vec(("[a-z]{1,6}", "[ -~]{0,8}"), 0..3)), 0..3),
+                // events as a chain delivers them: also `execute` / `wasm` events whose attribute keys
+                // start with an underscore (`_contract_address`), empty attribute lists, empty values
+                proptest::collection::vec(
+                    (
+                        prop_oneof![3 => "[a-z][a-z_]{1,7}", 1 => Just("execute".to_string()), 1 => Just("wasm".to_string()), 1 => Just("wasm-transfer".to_string())],
+                        proptest::collection::vec((prop_oneof![4 => "[a-z]{1,6}", 1 => Just("_contract_address".to_string()), 1 => Just("_x".to_string())], "[ -~]{0,8}"), 0..3),
+                    ),
+                    0..3,
+                ),
                 proptest::collection::vec(("/[a-z.]{1,12}", proptest::collection::vec(any::<u8>(), 0..8)), 0..2),
                 u64_edges(),
                 // error texts as a chain produces them: arbitrary text, often behind the Display
@@ -315,11 +323,9 @@ pub fn sub_result(case: &ReplyCase) -> SubMsgResult {
                 .events
                 .iter()
                 .map(|(t, a)| {
-                    let mut e = Event::new(t);
-                    for (k, v) in a {
-                        e = e.add_attribute(k, v);
-                    }
-                    e
+                    // decoded from JSON like a real reply (`Event::add_attribute` refuses reserved keys in debug builds)
+                    let attrs: Vec<Value> = a.iter().map(|(k, v)| json!({"key": k, "value": v})).collect();
+                    serde_json::from_value::<Event>(json!({"type": t, "attributes": attrs})).expect("event decodes")
                 })
                 .collect(),
             data: case.data.clone().map(Binary::from),
@@ -489,6 +495,23 @@ pub fn check_outcome(model: &Program, case: &ReplyCase, harness: &Harness, out: 
 
 /// Run one reply case through `dispatch_reply` and compare with the reference semantics.
 pub fn run_reply_case(p: &Prog, rows: &[ReplyRow], methods: &[ReplyMethodView], ids: &ReplyIds, case: &ReplyCase, prefix: &str, via: u8) -> Result<Expect, Bad> {
+    // a name whose two methods mark the payload differently (typed `Binary` / raw): which of the
+    // two encodings goes over the wire is the framework's choice, so only builder-made payloads
+    // are meaningful there
+    let mixed = case.row < rows.len() && {
+        let r = &rows[case.row];
+        match (method_of(methods, &r.ok), method_of(methods, &r.err)) {
+            (Some(a), Some(b)) => std::mem::discriminant(&a.spec.payload) != std::mem::discriminant(&b.spec.payload),
+            _ => false,
+        }
+    };
+    let owned;
+    let case = if mixed && case.garbage_payload.is_some() {
+        owned = ReplyCase { garbage_payload: None, ..case.clone() };
+        &owned
+    } else {
+        case
+    };
     let (id, payload, payload_valid) = if case.row >= rows.len() {
         // an id that belongs to no handler
         let mut id = case.unknown_id;
